@@ -151,10 +151,12 @@ _UNI_WIT = (
 # every processed entry is the witness of its own code point (hence no two entries share one)
 _UNI_INJ = "all(all(font.uni[glyphOrder[a]][b] in mapping and wi[font.uni[glyphOrder[a]][b]] == a and wj[font.uni[glyphOrder[a]][b]] == b for b in range(len(font.uni[glyphOrder[a]]))) for a in range(i))"
 
-contract(
+def _umap_contract(name, cls_name):
+  return contract(
     "ufo2ft.util:makeUnicodeToGlyphNameMapping",
+    name=name,
     props=["C03"],
-    params={"font": Ref("GlyphSet"), "glyphOrder": Opt(List(STR))},
+    params={"font": Ref(cls_name), "glyphOrder": Opt(List(STR))},
     returns=Dict(INT, STR),
     requires=["glyphOrder is not None", "all(n in font.keyset for n in glyphOrder)"],
     ensures={
@@ -191,6 +193,9 @@ contract(
         ),
     },
 )
+
+
+_umap_contract(None, "GlyphSet")
 
 
 # =====================================================================================================
@@ -801,3 +806,101 @@ _MMRG_TT = contract(
     },
 )
 _MMRG_TT.runtime = Runtime(_mmrg_cases, _mmrg_build("ttf"), call=lambda fn, a: fn(a["self"], a["font"], a["glyphSet"], a["sfntVersion"], a["notdefGlyph"]))
+
+
+# =====================================================================================================
+# The compiler's own glyph set: BaseOutlineCompiler.makeOfficialGlyphOrder / makeUnicodeToGlyphNameMapping are one-line wrappers
+# that apply the two util functions to `self.allGlyphs` (the glyph set AFTER makeMissingRequiredGlyphs) and `self.glyphOrder`.
+# The util functions are verified once more for that receiver class (same contract texts), the wrappers against them.
+CLASSES["NotdefCompiler"].fields.update({"allGlyphs": Ref("NotdefGlyphSet"), "glyphOrder": List(STR)})
+
+contract(
+    "ufo2ft.util:makeOfficialGlyphOrder",
+    name="compiler-set",
+    props=["C03"],
+    params={"font": Ref("NotdefGlyphSet"), "glyphOrder": Opt(List(STR))},
+    returns=List(STR),
+    requires=["glyphOrder is not None"],
+    ensures={"order": "result == official_order(font.keyset, glyphOrder)", **_EACH_ONCE},
+    canaries={"shifted": "result == official_order(font.keyset, glyphOrder) + ['x']"},
+    loops=_ORDER_LOOP,
+    locals={"order": List(STR), "names": Set(STR)},
+    sorted_axioms=True,
+    runtime=Runtime(_order_cases, lambda d: {"font": {n: None for n in d["names"]}, "glyphOrder": list(d["order"])}),
+)
+_umap_contract("compiler-set", "NotdefGlyphSet").runtime = Runtime(_umap_cases, _umap_build)
+
+_AGS = "self.allGlyphs"
+contract(
+    "ufo2ft.outlineCompiler:BaseOutlineCompiler.makeOfficialGlyphOrder",
+    props=["C03"],
+    params={"self": Ref("NotdefCompiler"), "glyphOrder": List(STR)},
+    returns=List(STR),
+    calls={"ufo2ft.util:makeOfficialGlyphOrder": "ufo2ft.util:makeOfficialGlyphOrder#compiler-set"},
+    modifies=[],
+    ensures={
+        "order": f"result == official_order({_AGS}.keyset, glyphOrder)",
+        "no-name-twice": "distinct(result)",
+        "only-glyph-names": f"all(result[k] in {_AGS}.keyset for k in range(len(result)))",
+        "every-glyph-name": f"all(x in result for x in {_AGS}.keyset)",
+    },
+    canaries={"empty": "len(result) == 0"},
+)
+contract(
+    "ufo2ft.outlineCompiler:BaseOutlineCompiler.makeUnicodeToGlyphNameMapping",
+    props=["C03"],
+    params={"self": Ref("NotdefCompiler")},
+    returns=Dict(INT, STR),
+    calls={"ufo2ft.util:makeUnicodeToGlyphNameMapping": "ufo2ft.util:makeUnicodeToGlyphNameMapping#compiler-set"},
+    modifies=[],
+    # the glyph order is the one makeOfficialGlyphOrder made from this very glyph set (only-glyph-names above)
+    requires=[f"all(n in {_AGS}.keyset for n in self.glyphOrder)"],
+    ensures={
+        "maps": f"all(all(u in result and result[u] == self.glyphOrder[i] for u in {_AGS}.uni[self.glyphOrder[i]]) for i in range(len(self.glyphOrder)))",
+        "only": f"all(any(any({_AGS}.uni[self.glyphOrder[i]][j] == u for j in range(len({_AGS}.uni[self.glyphOrder[i]]))) for i in range(len(self.glyphOrder))) for u in result)",
+    },
+    raises={
+        "InvalidFontData": f"any(any(any(any((a != i or b != j) and {_AGS}.uni[self.glyphOrder[a]][b] == {_AGS}.uni[self.glyphOrder[i]][j]"
+        f" for b in range(len({_AGS}.uni[self.glyphOrder[a]]))) for a in range(len(self.glyphOrder)))"
+        f" for j in range(len({_AGS}.uni[self.glyphOrder[i]]))) for i in range(len(self.glyphOrder)))",
+    },
+    canaries={"empty": "len(result) == 0"},
+)
+
+
+def _wrap_cases(rng, n):
+    out = []
+    for k in range(n):
+        names = rng.sample([".notdef", "a", "b", "c"], rng.randint(0, 4))
+        uni = {nm: [rng.choice([65, 66, 67, 0x1F600]) for _ in range(rng.randint(0, 2))] for nm in names}
+        order = rng.sample(names + ["zz"], rng.randint(0, len(names)))
+        out.append({"unicodes": uni, "order": order})
+    return out
+
+
+def _wrap_build(with_order):
+    def build(d):
+        import ufoLib2
+
+        from ufo2ft.outlineCompiler import OutlineOTFCompiler
+
+        f = ufoLib2.Font()
+        for nm, us in d["unicodes"].items():
+            f.newGlyph(nm).unicodes = list(us)
+        comp = OutlineOTFCompiler.__new__(OutlineOTFCompiler)
+        comp.ufo = f
+        comp.allGlyphs = {g.name: g for g in f}
+        _KEEP.append(f)
+        del _KEEP[:-60]
+        if with_order:
+            return {"self": comp, "glyphOrder": list(d["order"])}
+        from ufo2ft.util import makeOfficialGlyphOrder
+
+        comp.glyphOrder = makeOfficialGlyphOrder(comp.allGlyphs, list(d["order"]))
+        return {"self": comp}
+
+    return build
+
+
+CONTRACTS["ufo2ft.outlineCompiler:BaseOutlineCompiler.makeOfficialGlyphOrder"].runtime = Runtime(_wrap_cases, _wrap_build(True), call=lambda fn, a: fn(a["self"], a["glyphOrder"]))
+CONTRACTS["ufo2ft.outlineCompiler:BaseOutlineCompiler.makeUnicodeToGlyphNameMapping"].runtime = Runtime(_wrap_cases, _wrap_build(False), call=lambda fn, a: fn(a["self"]))
